@@ -203,7 +203,11 @@ def chunk : Op → Nat
   | .treeCtorTree | .treeCtorChildren | .treeAssign | .treeSelfAssign | .treeSetValue
   | .treePushFrontValue | .treeInsertValue | .treePushFrontTree | .treeInsertTree | .treePopBack | .treePopFront
   | .treeErase | .treeEraseRange | .treeClear | .treeSort
-  | .gridCtorFn | .gridCtorValue | .gridCtorRows2 | .gridStaticRow2 | .gridCtorGrid | .gridAssign | .gridSelfAssign | .gridFill => 3
+  | .gridCtorFn | .gridCtorValue | .gridCtorRows2 | .gridStaticRow2 | .gridCtorGrid | .gridAssign | .gridSelfAssign | .gridFill
+  | .treeSwap | .treeSortPred | .joinSelf | .arrJoinSelf | .tupConcatSelf | .optCombineSelf
+  | .algMapList | .algMapArr | .algMapTup | .algLoopBreakTuple | .recSet
+  | .parseAlt | .parseOpt | .parseConvert | .parseAsStruct | .parseSeparator | .parseList | .parseRepPlus
+  | .optsArgument | .optsOptional | .optsProduct | .optsMany | .optsSum => 3
   | _ => 0
 
 /-- the common part of the `Covers` proofs: after `cases o`, goals of other chunks are closed, the value categories are substituted
